@@ -21,5 +21,10 @@ for sid in ids:
                 res["seeds"][s] = {"exit": c.returncode, "violations": sum(l.startswith("VIOLATION") for l in c.stdout.splitlines())}
     finally:
         sh(f"git -C /repo worktree remove --force {wt}"); shutil.rmtree(wt, ignore_errors=True)
+    try:   # keep the verdicts of seeds evaluated earlier
+        old = json.load(open(f"{d}/robustness.json")).get("seeds", {})
+        res["seeds"] = dict(old, **res["seeds"])
+    except Exception:
+        pass
     json.dump(res, open(f"{d}/robustness.json", "w"), indent=1)
     print(sid, {s: v["exit"] for s, v in res["seeds"].items()}, res.get("error", ""), flush=True)
